@@ -17,34 +17,39 @@
 (* memo already maps the key to another class.  "snap" events re-check a   *)
 (* returned result against its deep snapshot (ReturnedResultsImmutable).   *)
 (***************************************************************************)
-EXTENDS Integers, Sequences, FiniteSets, TLC, Json, SequencesExt
+EXTENDS PromQLRef, Json
 
 CONSTANT TraceFile
 Trace == ndJsonDeserialize(TraceFile)
 
-VARIABLES l, cur, ver, cfg, memo, viol, stat
-vars == <<l, cur, ver, cfg, memo, viol, stat>>
+VARIABLES l, cur, ver, cfg, memo, viol, stat, tie
+vars == <<l, cur, ver, cfg, memo, viol, stat, tie>>
 
-Stat0 == [sc |-> 0, obs |-> 0, keys |-> 0, variations |-> 0, snaps |-> 0, skipped |-> 0, dead |-> 0]
-Init == /\ l = 1 /\ cur = [id |-> ""] /\ ver = 0 /\ cfg = "" /\ memo = <<>> /\ viol = {} /\ stat = Stat0
+Stat0 == [sc |-> 0, obs |-> 0, keys |-> 0, variations |-> 0, snaps |-> 0, skipped |-> 0, dead |-> 0, ties |-> 0]
+Init == /\ l = 1 /\ cur = [id |-> ""] /\ ver = 0 /\ cfg = "" /\ memo = <<>> /\ viol = {} /\ stat = Stat0 /\ tie = FALSE
 
 IsEv(e) == l <= Len(Trace) /\ Trace[l].ev = e /\ l' = l + 1
 
 \* memo is a sequence of [key, ver, cls, cfg, src] (small per scenario; reset at every header)
 Lookup(k) == {i \in 1..Len(memo) : memo[i].key = k /\ memo[i].ver = ver}
 
+\* With a tie at the cut of a topk/bottomk group (or values the specification does not know) the result
+\* depends on the order in which series reach the operator - storage order, shard count, partitioning: it is not
+\* a function of the data (the reference engine behaves the same).  Such scenarios carry no agreement claim.
+HasTie(h) == "spec" \in DOMAIN h /\ h.spec /\ AnyTie(h)
 Header == /\ IsEv("sc")
           /\ cur' = Trace[l] /\ ver' = 0 /\ cfg' = "" /\ memo' = <<>>
-          /\ stat' = [stat EXCEPT !.sc = @ + 1]
+          /\ tie' = HasTie(Trace[l])
+          /\ stat' = [stat EXCEPT !.sc = @ + 1, !.ties = @ + (IF HasTie(Trace[l]) THEN 1 ELSE 0)]
           /\ UNCHANGED viol
 
 \* configuration variation (environment action: must not change any result)
 Vary == /\ IsEv("cfg") /\ cfg' = Trace[l].cfg
         /\ stat' = [stat EXCEPT !.variations = @ + 1]
-        /\ UNCHANGED <<cur, ver, memo, viol>>
+        /\ UNCHANGED <<cur, ver, memo, viol, tie>>
 
 \* the stored data changes: results may change
-AppendData == /\ IsEv("data") /\ ver' = ver + 1 /\ UNCHANGED <<cur, cfg, memo, viol, stat>>
+AppendData == /\ IsEv("data") /\ ver' = ver + 1 /\ UNCHANGED <<cur, cfg, memo, viol, stat, tie>>
 
 Observe ==
   /\ IsEv("obs")
@@ -56,33 +61,33 @@ Observe ==
      ELSE LET m == memo[CHOOSE i \in hit : TRUE] IN
         /\ memo' = memo
         /\ stat' = [stat EXCEPT !.obs = @ + 1]
-        /\ viol' = IF m.cls = e.cls THEN viol
+        /\ viol' = IF m.cls = e.cls \/ tie THEN viol
                    ELSE viol \cup {<<cur.id, "Agree",
                           "key=" \o e.key \o " first=" \o m.src \o "[" \o m.cfg \o "] now=" \o e.src \o "[" \o cfg \o "] " \o e.desc>>}
-  /\ UNCHANGED <<cur, ver, cfg>>
+  /\ UNCHANGED <<cur, ver, cfg, tie>>
 
 \* a result handed to the caller earlier is compared with its deep snapshot
 Snap == /\ IsEv("snap")
         /\ viol' = IF Trace[l].same THEN viol
                    ELSE viol \cup {<<cur.id, "ReturnedResultsImmutable", "result=" \o Trace[l].rid \o " after=" \o Trace[l].after>>}
         /\ stat' = [stat EXCEPT !.snaps = @ + 1]
-        /\ UNCHANGED <<cur, ver, cfg, memo>>
+        /\ UNCHANGED <<cur, ver, cfg, memo, tie>>
 
 DeadEv == /\ IsEv("dead")
           /\ viol' = viol \cup {<<cur.id, "ProcessDead", Trace[l].why>>}
           /\ stat' = [stat EXCEPT !.dead = @ + 1]
-          /\ UNCHANGED <<cur, ver, cfg, memo>>
+          /\ UNCHANGED <<cur, ver, cfg, memo, tie>>
 
 \* a data race reported by the Go race detector inside the engine while this scenario ran (C12):
 \* no action of the specification accepts it
 RaceEv == /\ IsEv("race")
           /\ viol' = viol \cup {<<cur.id, "RaceFree", Trace[l].where>>}
-          /\ UNCHANGED <<cur, ver, cfg, memo, stat>>
+          /\ UNCHANGED <<cur, ver, cfg, memo, stat, tie>>
 
-SkipEv == /\ IsEv("skip") /\ stat' = [stat EXCEPT !.skipped = @ + 1] /\ UNCHANGED <<cur, ver, cfg, memo, viol>>
+SkipEv == /\ IsEv("skip") /\ stat' = [stat EXCEPT !.skipped = @ + 1] /\ UNCHANGED <<cur, ver, cfg, memo, viol, tie>>
 
 OtherEv == /\ l <= Len(Trace) /\ Trace[l].ev \notin {"sc", "cfg", "data", "obs", "snap", "dead", "skip", "race"}
-           /\ l' = l + 1 /\ UNCHANGED <<cur, ver, cfg, memo, viol, stat>>
+           /\ l' = l + 1 /\ UNCHANGED <<cur, ver, cfg, memo, viol, stat, tie>>
 
 Next == Header \/ Vary \/ AppendData \/ Observe \/ Snap \/ DeadEv \/ RaceEv \/ SkipEv \/ OtherEv
 Spec == Init /\ [][Next]_vars
